@@ -1,6 +1,7 @@
 package main
 
 import (
+	"os"
 	"crypto/tls"
 	"encoding/base64"
 	"encoding/json"
@@ -55,6 +56,8 @@ type negScen struct {
 	Secret string    `json:"secret,omitempty"`
 	// FailCond: the condition inside <failed/> for the reply variant "failedcond"
 	FailCond string `json:"failcond,omitempty"`
+	// Logger: the client is configured with a stream logger (what is written passes through it)
+	Logger bool `json:"logger,omitempty"`
 }
 
 // every condition the library's <failed/> parser knows, plus the XEP-0198 ones and one it does not know
@@ -667,6 +670,13 @@ func negRunOne(w *tr.Writer, tid int, raw json.RawMessage, c *common) error {
 	case "skip":
 		cfg.TLSConfig = &tls.Config{InsecureSkipVerify: true}
 	}
+	if sc.Logger {
+		if f, err := os.CreateTemp("", "verif-streamlog-*"); err == nil {
+			defer os.Remove(f.Name())
+			defer f.Close()
+			cfg.StreamLogger = f
+		}
+	}
 	xmpp.VerifSetStreamManagementResume(cfg, true)
 	var discCount int32
 	client, err := xmpp.NewClient(cfg, router, func(e error) { w.Emit(tr.Rec{"ev": "errcb", "msg": e.Error()}) })
@@ -827,6 +837,9 @@ func runNeg(args []string) error {
 			sc.Conns[ci].Nst = (tid + ci) % 3
 		}
 		sc.Lenient = sc.Lenient || *lenient
+		if tid%3 == 2 {
+			sc.Logger = true // every third scenario with a stream logger (TCP and WebSocket alike)
+		}
 		if sc.FailCond == "" && strings.Contains(string(ln), `"failedcond"`) {
 			sc.FailCond = negFailConds[tid%len(negFailConds)]
 		}
